@@ -34,8 +34,13 @@ TBad == /\ IsEvent("bad")
            /\ d = "accept" => ~Ev.err
         /\ Ev.panicked = FALSE
         /\ UNCHANGED <<vars, shas>>
+\* a packet unpacked earlier into its own Packet value and held by the caller while later packets were unpacked:
+\* it still is what it was (id, length, payload digest as recorded when it was unpacked)
+THeld == /\ IsEvent("held") /\ Ev.idx \in 1..Len(recv)
+         /\ Ev.id = recv[Ev.idx][1] /\ Ev.n = recv[Ev.idx][2] /\ Ev.sha = Ev.sha0
+         /\ UNCHANGED <<vars, shas>>
 TraceInit == Init /\ l = 1 /\ shas = <<>>
-TraceNext == (TReset \/ TSetThr \/ TPack \/ TUnpack \/ TBad) /\ FIFO'
+TraceNext == (TReset \/ TSetThr \/ TPack \/ TUnpack \/ TBad \/ THeld) /\ FIFO'
 TraceSpec == TraceInit /\ [][TraceNext]_tvars
 Accepted == LET d == TLCGet("stats").diameter IN PrintT(<<"HWM", d, Len(Trace) + 1>>) /\ d = Len(Trace) + 1
 =============================================================================
